@@ -53,6 +53,8 @@ def log_digest(events):
             h.update(f'resp {e["step"]} {e.get("stage")} {body}\n'.encode())
         elif t in ("gate", "release"):
             h.update(f'{t} {e.get("name")} {e.get("key")} {e.get("rule")} {e.get("parked")}\n'.encode())
+        elif t == "rofault":
+            h.update(f'rofault {e.get("path")} {e.get("fault")} {e.get("errno")}\n'.encode())
         elif t in ("crash", "stuck", "advanced", "issue", "ready"):
             h.update(f'{t} {e.get("step")} {e.get("k")} {e.get("io")} {e.get("how")} {e.get("wall_ms")}\n'.encode())
         elif t == "fs":
@@ -104,6 +106,10 @@ def execute(job):
             summary["faults"] = dict(Counter(
                 (f'errno{e["errno"]}' if e.get("errno") else f'short-write' if "short" in e else "fault") + ":" + e["op"] + ":" + path_class(e["path"])
                 for e in ios if e.get("fault")))
+            for e in ev:
+                if e.get("t") == "rofault":
+                    key = f'errno{e.get("errno")}:open_ro:' + path_class(e["path"])
+                    summary["faults"][key] = summary["faults"].get(key, 0) + 1
             crash = [e for e in ev if e.get("t") == "crash"]
             if crash:
                 c = crash[0]
@@ -143,7 +149,14 @@ def run_jobs(jobs, chunksize=1):
         for j in jobs:
             yield j, execute(j)
         return
-    jobs = list(jobs)
+    # identical plans have the same id and would share one data root: run each distinct plan once
+    seen, uniq = set(), []
+    for j in jobs:
+        pid = runner.plan_id(j[0])
+        if pid not in seen:
+            seen.add(pid)
+            uniq.append(j)
+    jobs = uniq
     for j, r in zip(jobs, pool().imap(execute, jobs, chunksize)):
         yield j, r
 
